@@ -26,6 +26,8 @@ def run(rep, tier):
     rep.rule("R15.2", "monopole: fac1 = 1/|posB - posA| and the charge-charge entry is fac1 * charge")
     rep.rule("R15.4", "callers that contract VSiteA<N>(A, B) with A's multipole vector Q(A): the 4-component form (charge + dipole of A) is chosen only when rank(A) < 2, "
                       "for every combination of the two ranks; with rank(A) = 2 the 9-component form is used (else A's quadrupole terms are dropped and E(A,B) != E(B,A))")
+    rep.rule("R15.5", "StaticSite::Rotate(R, ref) rotates every moment the site carries: position ref + R (pos - ref); dipole components R d whenever rank > 0; "
+                      "quadrupole spherical(R C R^T) whenever rank > 1 (rotation invariance of the pair energy needs positions and moments to turn together)")
     rep.rule("R15.3", "VSiteA<N>: the interaction block (rank a of site A) x (rank b of site B) is accumulated exactly once whenever A carries rank a "
                       "(N = 1, 4, 9) and B carries rank b (getRank() >= b), for all nine rank pairs - no pair is dropped or doubled by the rank gating")
     units = [front.repo("xtp/src/libxtp/eeinteractor.cc")]
@@ -120,6 +122,7 @@ def run(rep, tier):
                         "branches or execution)"]
     check_rank_gating(rep, F)
     check_size_selection(rep, F)
+    check_rotate(rep)
 
 
 def check_rank_gating(rep, F):
@@ -254,3 +257,56 @@ def check_size_selection(rep, F):
             bad = "the interaction is skipped when %s: that tests only a part of the multipole vector, so a site whose remaining moments are non-zero (e.g. a pure quadrupole) contributes nothing" % partial[0]
         rep.check(bad is None, "R15.4", "size-selection|" + f.qname.split("::")[-1], "VSiteA<9> whenever the contracted site carries a quadrupole", "%s: %s" % (f.qname, bad), f.loc(full[0]["node"]), sample=True)
     rep.floor("R15.4", n_sites, 1, "callers contracting VSiteA with the full multipole vector")
+
+
+def check_rotate(rep):
+    from vsa.alg import mat_atoms
+    from vsa.cases import executes
+    unit = front.repo("xtp/src/libxtp/staticsite.cc")
+    FS = Facts(front.export([unit]))
+    rep.units = list(rep.units) + [unit]
+    f = FS.one(X + "StaticSite::Rotate")
+    rep.analysed(f)
+    sph_args = []
+
+    def grab(fold, n, env):
+        if (n.get("callee") or "").endswith("CalculateSphericalMultipole") and n.get("args"):
+            sph_args.append(fold.ev(n["args"][0], env))
+        return NotImplemented
+    fo = Fold(f, call=grab).run()
+    conds = getattr(fo, "conds", {})
+    Rn, refn = [p_["name"] for p_ in f.j["params"][:2]]
+    R = mat_atoms(Rn)
+    pos, ref = vec_atoms("pos_"), vec_atoms(refn)
+    st = [e for e in fo.events if e["kind"] == "store"]
+    ps = [e for e in st if e["target"] == "pos_"]
+    dp = [e for e in st if e["target"].replace(" ", "") == "Q_.segment(1,3)"]
+    qd = [e for e in st if e["target"].replace(" ", "") == "Q_.segment(4,5)"]
+    ok, why = len(ps) == 1 and len(dp) == 1 and len(qd) == 1, "expected one update each of the position, the dipole part and the quadrupole part (found %d/%d/%d)" % (len(ps), len(dp), len(qd))
+    if ok:
+        want_pos = ref + R * (pos - ref)
+        ok = not ps[0]["guards"] and isinstance(ps[0]["value"], Matrix) and (ps[0]["value"] - want_pos).applyfunc(sp.expand) == sp.zeros(3, 1)
+        why = "the position becomes %s, not ref + R (pos - ref)" % str(ps[0]["value"])[:120]
+    if ok:
+        rk = S("rank_")
+        for r_ in (0, 1, 2):
+            xd, xq = executes(dp[0], {rk: sp.Integer(r_)}, None, None, conds), executes(qd[0], {rk: sp.Integer(r_)}, None, None, conds)
+            if xd is None or xq is None:
+                ok, why = False, "cannot decide which moments are rotated for rank %d" % r_
+                break
+            if xd != (r_ >= 1) or xq != (r_ >= 2):
+                ok, why = False, "for a rank-%d site the dipole is %srotated and the quadrupole is %srotated (the position always is): the moments no longer turn with the site" % (
+                    r_, "" if xd else "NOT ", "" if xq else "NOT ")
+                break
+    if ok:
+        d_old = Fn("segment")(S("Q_"), 1, 3)
+        v = dp[0]["value"]
+        ok = isinstance(v, Matrix) and (v - R * d_old).applyfunc(sp.expand) == sp.zeros(*v.shape)
+        why = "the dipole part becomes %s, not R d" % str(v)[:120]
+    if ok:
+        C = mat_atoms("CalculateCartesianMultipole(this)")
+        want_m = R * C * R.T
+        ok = len(sph_args) == 1 and isinstance(sph_args[0], Matrix) and sph_args[0].shape == (3, 3) and (sph_args[0] - want_m).applyfunc(sp.expand) == sp.zeros(3, 3) \
+            and str(getattr(qd[0]["value"], "func", "")) == "CalculateSphericalMultipole"
+        why = "the quadrupole part is not spherical(R C R^T)"
+    rep.check(ok, "R15.5", "rotate", "position, dipole (rank > 0) and quadrupole (rank > 1) are all rotated", "StaticSite::Rotate: " + why, f.loc(), sample=True)
